@@ -73,6 +73,10 @@ class Ctx:
             inl = inline.inline_helpers(f)
             if inl:
                 info = dict(info, inlined_helpers=inl)
+            from . import idioms
+            idm = idioms.canonicalise(f)
+            if idm:
+                info = dict(info, idioms_canonicalised=idm)
             from . import webs, mirrors, copysync
             rw, fd = copysync.run(f)
             info = dict(info, deferred_copies_rewritten=rw, deferred_copy_findings=fd)
